@@ -947,3 +947,90 @@ def read_copy_write_sites(func_node: ast.AST) -> list[tuple[ast.AST, str, str]]:
                 if not locked:
                     out.append((n, a, src))
     return out
+
+
+_UNIT_FACTORS = {"_minutes": (60,), "_hours": (3600,), "_days": (86400,)}
+
+
+def unit_misuse_sites(repo) -> tuple[int, list[tuple[object, ast.AST, str]]]:
+    """Dimension check, seeded by the names of the configuration options and carried by dataflow.  A read of an option
+    `<x>.conf.<name>_minutes` / `_hours` is a quantity in that unit.  It may be multiplied by the factor that turns it into
+    seconds (60 / 3600), formatted into text, bound to a local, or handed to a callee - the local / the callee's parameter
+    (resolved by position or keyword, whatever it is called) then carries the unit and its own uses are judged the same
+    way.  Every other use - compared, added to a time, passed to an unresolved callee - mixes units.
+    Returns (uses examined, misuses)."""
+    funcs_by_name: dict[str, list] = {}
+    for f in repo.all_functions():
+        funcs_by_name.setdefault(f.name, []).append(f)
+    bad: list[tuple[object, ast.AST, str]] = []
+    seen: set[tuple[int, str]] = set()
+    work: list[tuple[object, str, str]] = []  # (function, local / parameter name, unit suffix)
+    n = 0
+
+    def judge(f, x: ast.AST, suf: str, pm) -> None:
+        nonlocal n
+        par = pm.get(id(x))
+        n += 1
+        if isinstance(par, ast.BinOp) and isinstance(par.op, ast.Mult):
+            other = par.right if par.left is x else par.left
+            if not (isinstance(other, ast.Constant) and other.value in _UNIT_FACTORS[suf]):
+                bad.append((f, x, f"multiplied by `{ast.unparse(other)[:30]}`, not by {_UNIT_FACTORS[suf][0]}"))
+            return
+        if isinstance(par, (ast.FormattedValue, ast.JoinedStr)):
+            return
+        if isinstance(par, (ast.Assign, ast.AnnAssign)) and getattr(par, "value", None) is x:
+            tg = par.targets[0] if isinstance(par, ast.Assign) else par.target
+            if isinstance(tg, ast.Name):
+                work.append((f, tg.id, suf))
+                return
+            bad.append((f, x, f"stored into `{ast.unparse(tg)[:40]}`"))
+            return
+        call = par if isinstance(par, ast.Call) and any(a is x for a in par.args) else None
+        kw = par if isinstance(par, ast.keyword) else None
+        if kw is not None:
+            call = pm.get(id(kw))
+        if isinstance(call, ast.Call):
+            cands = funcs_by_name.get(call_name(call) or "", [])
+            targets = []
+            for c in cands:
+                ps = [a.arg for a in c.node.args.args + c.node.args.kwonlyargs]
+                if kw is not None:
+                    if kw.arg in ps:
+                        targets.append((c, kw.arg))
+                else:
+                    i_ = next(k for k, a in enumerate(call.args) if a is x)
+                    off = 1 if ps and ps[0] in ("self", "cls") and isinstance(call.func, ast.Attribute) else 0
+                    if i_ + off < len(ps):
+                        targets.append((c, ps[i_ + off]))
+            if targets and len(targets) == len(cands):
+                for c, pn in targets:
+                    work.append((c, pn, suf))
+                return
+            bad.append((f, x, f"passed to `{call_name(call)}`, which could not be resolved to one parameter"))
+            return
+        bad.append((f, x, f"used in `{ast.unparse(par)[:50]}`" if par is not None else "used"))
+
+    for f in repo.all_functions():
+        if not f.module.name.startswith("pynenc.") or f.module.name.startswith("pynenc.conf"):
+            continue
+        pm = None
+        for x in walk_no_nested(f.node):
+            if isinstance(x, ast.Attribute) and isinstance(x.ctx, ast.Load) and isinstance(x.value, ast.Attribute) and x.value.attr == "conf":
+                suf = next((s_ for s_ in _UNIT_FACTORS if x.attr.endswith(s_)), None)
+                if suf is None:
+                    continue
+                if pm is None:
+                    pm = parent_map(f.node)
+                judge(f, x, suf, pm)
+    rounds = 0
+    while work and rounds < 200:
+        rounds += 1
+        f, name, suf = work.pop()
+        if (id(f), name) in seen:
+            continue
+        seen.add((id(f), name))
+        pm = parent_map(f.node)
+        for x in walk_no_nested(f.node):
+            if isinstance(x, ast.Name) and x.id == name and isinstance(x.ctx, ast.Load):
+                judge(f, x, suf, pm)
+    return n, bad
